@@ -53,7 +53,8 @@ Roles == << <<"Item", "rule">>, <<"Word", "rule">>, <<"Pair", "class">>, <<"key"
             <<"gap", "let field">>, <<"Wrap", "template">>, <<"p", "parameter">>, <<"tmp", "let variable">>,
             <<"Box", "class template">>, <<"q", "parameter">>, <<"it", "field">>, <<"n", "let field">>,
             <<"stars", "field">>, <<"m", "parameter">>, <<"xs", "field">>, <<"Cnt", "class template">>,
-            <<"t", "parameter">>, <<"Tab", "template">>, <<"h", "parameter">>, <<"z", "parameter">>, <<"Inv", "template">> >>
+            <<"t", "parameter">>, <<"Tab", "template">>, <<"h", "parameter">>, <<"z", "parameter">>, <<"Inv", "template">>,
+            <<"Junk", "ignored rule">>, <<"Til", "ignored rule">> >>
 
 (* names taken from the generated source (dynamic pool) are tried in four representative roles only *)
 DynRoles == {"Word", "key", "p", "tmp", "t", "h"}
@@ -112,7 +113,8 @@ RenV(v, rho) ==
 Texts == << <<a, b>>, <<a, colon, b>>, <<a, b, colon, sp, b, a, 42, 42, 44, b>>, <<33, a, b, 42, 44, a, colon, b, 42>>,
             <<a, colon, sp, b, 42, 42, 42>>, <<33, a, 42, 42>>, <<a, 44, b, colon, a, 44, 33, b, 42>>, <<>>, <<colon>>,
             <<a, colon>>, <<33>>, <<a, b, 44, 44>>, <<b, colon, a, 42, 44, 33, a, 42, 44, b, a>>,
-            <<a, 33, 43, b>>, <<a, 43, b, 33, 33>>, <<a, 43>>, <<42, 42, a>>, <<a, 42>> >>
+            <<a, 33, 43, b>>, <<a, 43, b, 33, 33>>, <<a, 43>>, <<42, 42, a>>, <<a, 42>>,
+            <<126, a, b, 44, b>>, <<b, 126, a, a, b, 44, 126, b>>, <<a, colon, 126, b, 126, a>> >>
 
 Texts2 == << <<a, b>>, <<a, b, 42, 42>>, <<a, 33, 43, b>>, <<a, 43, b, 33, 33>>, <<42, 42, a>>, <<a, 42>>, <<b, 42, 42>>, <<>> >>
 
@@ -123,13 +125,16 @@ Init == /\ ri \in 1..Len(Roles) /\ pi \in 1..Len(Pool) /\ done = FALSE
         /\ (Pool[pi].dyn => Roles[ri][1] \in DynRoles)
 
 Rho == (Roles[ri][1] :> Pool[pi].name)
-Clash == \/ Pool[pi].name \in DOMAIN Base \/ \E k \in 1..Len(Roles) : Roles[k][1] = Pool[pi].name   \* not injective
+Clash == \/ Pool[pi].name \in (DOMAIN Base \cup {"Junk", "Til"}) \/ \E k \in 1..Len(Roles) : Roles[k][1] = Pool[pi].name   \* not injective
          \* v_ is the parameter of the lambdas the renderer writes; the field `key` is mentioned inside one of them, so
          \* this renaming would be captured by the lambda's own parameter - in the description, not in generated code
          \/ (Pool[pi].name = "v_" /\ Roles[ri][1] = "key")
 
-G0 == [rules |-> Base, ign |-> <<>>, start |-> "start"]
-G1 == [rules |-> Rename(Base, Rho), ign |-> <<>>, start |-> "start"]
+\* two NAMED ignore rules whose matches overlap ("~a" is one piece of junk, not a tilde and a word): the order in which
+\* they are tried is the order of declaration, whatever they are called
+Ign2 == << Rgx(<<"cat", <<Cls(<<126>>), RxStarG(Cls(<<a>>))>>>>), Str(<<126>>) >>
+G0 == [rules |-> Base, ign |-> Ign2, start |-> "start"]
+G1 == [rules |-> Rename(Base, Rho), ign |-> Ign2, start |-> "start"]
 
 RhoOf(x) == IF x \in DOMAIN Rho THEN Rho[x] ELSE x
 StepFixed ==
@@ -143,7 +148,8 @@ StepFixed ==
                     n2 == Len(es2) * Len(Texts2)
                     cur == << <<42, 42, a>>, <<42, 42>>, <<42>>, <<42, 42, 42>>, <<>> >>
                 IN PrintT(ToJson([g |-> G1,
-                                  cfg |-> [prop |-> "C20", renamed |-> Roles[ri][1], role |-> Roles[ri][2], to |-> Pool[pi].name],
+                                  cfg |-> [prop |-> "C20", renamed |-> Roles[ri][1], role |-> Roles[ri][2], to |-> Pool[pi].name,
+                                           ign_names |-> <<RhoOf("Junk"), RhoOf("Til")>>],
                                   runs |-> [k \in 1..(n1 + n2 + Len(cur)) |->
                                               IF k <= n1
                                               THEN Run(G1, es[((k - 1) \div Len(Texts)) + 1], Texts[((k - 1) % Len(Texts)) + 1], 0)
